@@ -106,6 +106,20 @@ func (u *Unit) heapSet(st *State, key string, v *Term) {
 
 func (u *Unit) elemsKey(elem types.Type) (string, Sort) {
 	es := u.m.sortOf(elem)
+	// One element heap per machine element type: without unsafe, a []byte and a
+	// []int (or []uint64, ...) can never share a backing array, so writes through
+	// one cannot be seen through the other. Named types share the heap of their
+	// underlying basic type (conservative).
+	if b, ok := elem.Underlying().(*types.Basic); ok && b.Info()&types.IsInteger != 0 {
+		name := b.Name()
+		switch b.Kind() {
+		case types.Uint8:
+			name = "uint8"
+		case types.Int32:
+			name = "int32"
+		}
+		return "E_" + name, SArr(SInt, SArr(u.m.ixSort(), es))
+	}
 	return "E_" + mangleSort(es), SArr(SInt, SArr(u.m.ixSort(), es))
 }
 
@@ -144,6 +158,12 @@ func (u *Unit) loadField(st *State, ref *Term, dt *structDT, i int) *Term {
 	arr := u.heapGet(st, dt.heapKey(i), SArr(SInt, f.sort))
 	v := u.m.tb.Select(arr, ref)
 	u.assumeEntryAllocated(arr, v, f.typ)
+	if !u.quiet && !v.bound && !ref.bound {
+		// typing invariant of the field's Go type (ranges, slice well-formedness) and
+		// memory safety: a reference stored in the heap denotes an object allocated
+		// in the current state
+		u.assumeTyping(st.guard, v, f.typ, st)
+	}
 	return v
 }
 
